@@ -29,6 +29,8 @@ ASSUMPTIONS = [
     'a pipe never loses, duplicates or corrupts bytes; the clock never goes backwards',
     'signals are delivered to a worker at its next kernel call or while it is blocked (not between two bytecodes)',
     'timing clauses are evaluated only in runs without stall faults and without sleep jitter',
+    'grow()/shrink() are issued by one thread at a time (as a sequence), concurrently with everything else',
+    'with threads=False the thread that runs the event loop is the one that calls join()/terminate()',
 ]
 RULE = ('case = (pool configuration, 1-2 user programs of apply/map/starmap/imap/imap_unordered/get/next/close/join/'
         'terminate/grow/shrink/discard/terminate_job ops over picklable task programs, in-task fault instructions '
